@@ -7,7 +7,7 @@ from gen import codec as G
 
 ID = "C10"
 LEVEL = "proof"
-LEAN_IMPORTS = ["WM.Props.C10", "WM.Props.C10Formats", "WM.Props.C10Bytes"]
+LEAN_IMPORTS = ["WM.Props.C10", "WM.Props.C10Formats", "WM.Props.C10Bytes", "WM.Props.C10Multi"]
 THEOREMS = [
     "WM.C10.delta_roundtrip", "WM.C10.ids_lawful", "WM.C10.blocks_roundtrip", "WM.C10.block_info",
     "WM.C10.block_info_fields", "WM.C10.aggregates_meaning", "WM.C10.terminfo", "WM.C10.terminfo_through_bytes",
@@ -18,7 +18,7 @@ THEOREMS = [
     "WM.C10.values_characters", "WM.C10.values_positionBoosts", "WM.C10.values_characterBoosts",
     "WM.C10.values_all", "WM.C10.word_values_shape", "WM.C10.vector_items",
     "WM.C10.doc_post_spec", "WM.C10.term_postings_spec", "WM.C10.vector_transpose_model", "WM.C10.vector_transpose",
-    "WM.C10.values_ok", "WM.C10.postings_end_to_end", "WM.C10.terminfo_bytes",
+    "WM.C10.values_ok", "WM.C10.postings_end_to_end", "WM.C10.terminfo_bytes", "WM.C10.multi_terminfo",
 ]
 # theorem -> what is missing for the full statement of the property
 PARTIAL = {
@@ -49,6 +49,14 @@ PARTIAL = {
         "the pickle of inlined postings is an opaque byte string; the OverflowError of struct 'f' for weights beyond "
         "the float32 range is not modelled. The block framing of the posting file (length int, pickled info tuple, "
         "data) stays abstracted to block records",
+    "WM.C10.multi_terminfo":
+        "reading.combine_terminfos over what the TermInfo accessors show, with the per-segment statistics taken as the "
+        "plain aggregates (count, sum, min, max) of the segment's (id, stored weight, stored length) postings: the "
+        "composition with the per-segment writer statistics `tiOf` (whose min length skips zero lengths and whose "
+        "lengths pass through the length byte) is not restated; that MultiReader.term_info hands in exactly the "
+        "sub-readers containing the term with their document offsets, that each call gets term infos it may modify "
+        "(the one-segment branch adds the offset in place), and MultiCursor.term_info are covered by the public-API "
+        "stream only (repeated and leaf-reader reads)",
     "WM.C10.inline_read":
         "for a value-less format (fixedsize 0) the inlined reader shows b'' where the block reader shows None; the "
         "theorem states exactly this difference instead of hiding it",
@@ -61,14 +69,18 @@ RULE = ("(1) codec: posting lists with lengths around multiples of blocklimit (1
         "repeated term; (3) public API: documents indexed with every format / vector format / field and document "
         "boosts under W3Codec(blocklimit 1..9|128, compression 0|3, inlinelimit 0|1|3), MemoryCodec, "
         "PlainTextCodec, 1-3 segments, merge, RAM/file storage: non-trivial = some posting list spans several "
-        "blocks or a vector was read; (4) float32: weights that are not float32 numbers. "
+        "blocks or a vector was read; (4) float32: weights that are not float32 numbers; "
+        "(5) combine_terminfos: 1-5 segments with document offsets (0 / >0, gaps), postings with lengths at the length-byte "
+        "thresholds: non-trivial = several segments or one segment at an offset > 0; in (3) every term_info is read "
+        "three times through the composite reader, twice through every leaf reader and once more through the composite "
+        "reader, for the terms of the generated field and for the per-document id terms (terms in exactly one segment). "
         "distinct = distinct (configuration, input)")
 ASSUMPTIONS = [
     "pickle, zlib and struct round-trip (identity parameters of the model)",
     "weights in the differential streams are float32-representable dyadics, so array('f') is the identity; "
     "float32 rounding of arbitrary weights is checked against struct('f') on the real code only",
     "byte offsets inside the posting file are abstracted to block indices; the terms index (term -> W3TermInfo bytes) "
-    "is exercised end to end only",
+    "is exercised end to end only (including repeated reads of the same term through the same reader object)",
     "analysis is outside the model: the formats receive a token list (text, pos, startchar, endchar, boost)",
     "MemoryCodec and PlainTextCodec are covered by the public-API stream only (no Lean model of them)",
 ]
@@ -597,8 +609,75 @@ def stream_f32(ctx, n, args=None):
                           "weights are stored as float32; block/term maxima must be maxima of the stored weights")
 
 
+# ------------------------------------------------------------------------------------------------
+# stream 5: reading.combine_terminfos (MultiReader.term_info / MultiCursor.term_info) against
+# WM/Model/CodecMulti.lean `combineTerminfos`, and against Layer S `aggStats` of the concatenated list
+
+def _gen_combine_case(rng):
+    nseg = rng.choice([1, 1, 2, 2, 3, 5])
+    segs, base = [], rng.choice([0, 0, 3, 1000])
+    for _ in range(nseg):
+        size = rng.choice([1, 2, 5, 40])
+        n = rng.randint(1, size)
+        ids = sorted(rng.sample(range(size), n))
+        ps = [(i, rng.choice([1, 2, 4, 8, 12, 999]) / 8.0, rng.choice([0, 1, 2, 17, 18, 255, 106374])) for i in ids]
+        segs.append((ps, base))
+        base += size + rng.choice([0, 0, 7])      # segments with trailing documents that lack the term
+    return segs
+
+
+def _stats_text(ti):
+    return "(%s %d %d %d %s %d %d)" % (G.rat(ti.weight()), ti.doc_frequency(), ti.min_length(), ti.max_length(),
+                                         G.rat(ti.max_weight()), ti.min_id(), ti.max_id())
+
+
+def _mp_list(ps, off=0):
+    return G.lst(["(%d %s %d)" % (i + off, G.rat(w), l) for i, w, l in ps])
+
+
+def stream_combine(ctx, n, cases=None):
+    from whoosh.reading import TermInfo, combine_terminfos
+    rng = ctx.rng("combine")
+    if cases is None:
+        cases = [_gen_combine_case(rng) for _ in range(n)]
+    # per-segment statistics (Layer S) and the aggregates of the whole list in global numbering
+    lines, spans = [], []
+    for segs in cases:
+        spans.append(len(lines))
+        lines.extend("c10 agg %s" % _mp_list(ps) for ps, _ in segs)
+        lines.append("c10 agg %s" % G.lst(["(%d %s %d)" % (i + off, G.rat(w), l) for ps, off in segs for i, w, l in ps]))
+    aggs = ctx.driver.ask(lines)
+    req = []
+    for segs, a in zip(cases, spans):
+        items = []
+        for k, (_, off) in enumerate(segs):
+            items.append("(%s %d)" % (aggs[a + k].strip("()"), off))
+        req.append("c10 combine %s" % G.lst(items))
+    model = ctx.driver.ask(req)
+    for segs, a, m in zip(cases, spans, model):
+        cj = {"_stream": "combine", "_pickle": _pack(segs), "segments": [[list(map(str, p)) for p in ps] + [off] for ps, off in segs]}
+        ctx.case(("combine", repr(segs)), nontrivial=len(segs) > 1 or segs[0][1] > 0)
+        ctx.stat("combine:segments=%d" % len(segs))
+        tis = []
+        for k, (ps, off) in enumerate(segs):
+            w, df, mnl, mxl, mw, mnid, mxid = parse_sexp(aggs[a + k])[0]
+            tis.append((TermInfo(weight=float(G.Fraction(w)), df=int(df), minlength=int(mnl), maxlength=int(mxl),
+                                 maxweight=float(G.Fraction(mw)), minid=int(mnid), maxid=int(mxid)), off))
+        try:
+            real = _stats_text(combine_terminfos(tis))
+        except Exception as e:  # noqa
+            real = "!" + type(e).__name__
+        whole = aggs[a + len(segs)]
+        if m != real:
+            ctx.divergence("reading.combine_terminfos", cj, m, real)
+        if real != whole:
+            ctx.violation("reading.combine_terminfos:differs-from-aggregates-of-the-concatenated-list", cj, whole, real,
+                          "statistics combined over %d segments" % len(segs))
+
+
 def run(ctx):
     _corpus(ctx)
+    stream_combine(ctx, ctx.budget(200, 4000))
     rng = ctx.rng("codec")
     n = ctx.budget(2000, 20000)
     cases = [_codec_case(rng) for _ in range(n)]
@@ -634,6 +713,8 @@ def _dispatch(ctx, by):
         stream_index(ctx, 0, by["index"])
     if by.get("f32"):
         stream_f32(ctx, 0, by["f32"])
+    if by.get("combine"):
+        stream_combine(ctx, 0, by["combine"])
 
 
 def replay(ctx, rec):
